@@ -42,9 +42,12 @@ def run(ctx):
     t = canon(I.call_function(rl, [("param", "path")]))
     txt = pretty(t)
     alts = alternatives(t)
-    nul = all("split(os.readlink(path), '\\x00', None)[0]" in pretty(a) for a in alts)
+    # cut at the first NUL: `.split('\0')[0]` or the head of `.partition('\0')`
+    nul = all("split(os.readlink(path), '\\x00', None)[0]" in pretty(a)
+              or "slice(os.readlink(path), None, find(os.readlink(path), '\\x00', 'first'), None)"
+              in pretty(a) for a in alts)
     dele = any(a[0] == "slice" and a[3] == ("const", -10) for a in alts) and \
-        any(a[0] == "idx" for a in alts)
+        any(a[0] in ("idx",) or (a[0] == "slice" and a[3] != ("const", -10)) for a in alts)
     cond_ok = False
     for g in collect(I.call_function(rl, [("param", "path")]), lambda x: x and x[0] == "gphi"):
         c = pretty(g[1])
